@@ -67,4 +67,5 @@ func runC07(c *Ctx) {
 	wellFounded(c, serializerEntries)
 	nilMapWriteRule(c, serializerEntries)
 	mapOrderRule(c, ds)
+	nestingAcyclic(c)
 }
